@@ -86,7 +86,9 @@ def _collapse_preconditions(
             ).format(func.__qualname__)
         )
 
-    return base_preconditions + preconditions
+    # The groups of the bases are copied so that a precondition added to this function later on
+    # (*e.g.*, ``Sub.func = icontract.require(...)(Sub.func)``) does not end up in the contracts of a base class.
+    return [list(group) for group in base_preconditions] + preconditions
 
 
 def _collapse_snapshots(
